@@ -138,3 +138,30 @@ void guard_release(const void *p)
         memset(r, 0, sizeof(*r));
     }
 }
+
+/* ---------------- dead stack contents ----------------
+ * What a callee finds in its not-yet-written stack slots is whatever earlier, unrelated calls left there.  The harness chooses it:
+ * the 48 KB below the caller's frame are filled with one byte value (digits make an unterminated scratch copy of a number read on
+ * into "more digits").  Nothing may depend on it. */
+static int stack_fill_byte = 0;
+
+void probe_set_stack_fill(int byte)
+{
+    stack_fill_byte = byte & 0xFF;
+}
+
+__attribute__((noinline)) void probe_stack_fill(void)
+{
+    volatile unsigned char area[48 * 1024];
+    size_t i;
+
+    if (stack_fill_byte == 0)
+    {
+        return;
+    }
+    for (i = 0; i < sizeof(area); i++)
+    {
+        area[i] = (unsigned char)stack_fill_byte;
+    }
+    __asm__ volatile("" : : "r"(area) : "memory");
+}
